@@ -744,23 +744,25 @@ def find_query(name):
 _BMC = ('bounded model checking of the real C translation units with CBMC 6.11 (goto-cc encode, SAT), property as assertions over '
         'symbolic inputs, counterexamples replayed on a gcc+ASan/UBSan build')
 _T = {
-    'C01': ('For every address of <= 24 (quick) / 40 (thorough) arbitrary bytes, and for a structured family to 72/80 bytes crossing the 64-octet '
-            'boundary, in all four modes and both tld_check values, the solver shows that the real is_*_email code splits at the last "@", applies '
+    'C01': ('For every address of <= 24 (quick) / 40 (thorough) arbitrary bytes, and for every address of exactly 65-67 (quick) / 64-80 (thorough) '
+            'arbitrary bytes - both sides of the 64-octet boundary -, in all four modes and both tld_check values, the solver shows that the real is_*_email code splits at the last "@", applies '
             'the 64-octet rule, consults exactly this mode\'s validators on exactly the two halves and returns the documented function of their '
             'answers - for ANY behaviour of the leaf validators (uninterpreted stubs); Layer C shows the mode set before eav_setup is the one applied. '
             'Bounded exhaustive within the stated lengths, which sampling cannot give; what the leaves accept is C02-C05.',
             _BMC + '; leaf validators as recording uninterpreted functions'),
-    'C02': ('Equivalence of the three real scanners with a reference grammar written from the property text, for every NUL-free string up to 7/10 '
-            'bytes over the full alphabet followed by 0-2 arbitrary bytes: a solver verdict over ~256^10 inputs per mode.',
+    'C02': ('Equivalence of the three real scanners with a reference grammar written from the property text, for EVERY NUL-free string of every length 0-16 and 63-66 '
+            '(quick) / 0-72 (thorough; mode 822: 0-48 plus a 68-byte structured family), followed by 0-2 arbitrary bytes: one solver query per '
+            'length, each a verdict over 255^n inputs.',
             _BMC + '; differential harness against a reference recogniser'),
     'C03': ('The decoder is decided completely (all windows of 0-4 bytes, no bound left); the scanner is equivalent to Unicode Table 3-7 + the 5321 '
-            'grammar up to 7/10 bytes; 6531 == 5321 (same code) on pure ASCII up to 8/11 bytes; a.X.b accepted for every non-ASCII scalar value.',
+            'grammar on every string of length 0-12/0-20; 6531 == 5321 (same code) on every pure-ASCII string of length 0-24 / 0-48 and 63-66; a.X.b accepted for every non-ASCII scalar value.',
             _BMC + '; differential harness against a reference recogniser; product program of two scanners'),
-    'C04': ('Equivalence with the host-name reference on every string up to 11/14 bytes (default and underscore builds), plus a structured family '
+    'C04': ('Equivalence with the host-name reference on every string of length 0-24 and 63-67 (quick) / 0-72, 96, 128, 192 and 252-256 (thorough), '
+            'underscore build too, plus a structured family '
             'with symbolic total length, symbolic dot positions and arbitrary bytes at symbolic positions: every label length in every position to 72 '
             'bytes and the 253/254 edge (quick), every shape with up to 5 labels to 262 bytes in one query (thorough).',
             _BMC + ' (CaDiCaL for the structured family); differential harness against a reference recogniser'),
-    'C05': ('Sandwich RFC 5321 4.1.3 <= accepted <= RFC 4291 for the real is_ipv4 (12/16 bytes), is_ipv6 (10/13 bytes, 20 over the address alphabet; '
+    'C05': ('Sandwich RFC 5321 4.1.3 <= accepted <= RFC 4291 for the real is_ipv4 (every string to 16/24 bytes), is_ipv6 (every string to 16 / 24, 28, 32 bytes; to 20/22 over the address alphabet; '
             'nested is_ipv4 replaced by an uninterpreted verdict inside its own proved bounds) and dispatch-only is_ipaddr; bracket handling, tag and '
             'family flag for every address up to 20/40 bytes with uninterpreted address validators.',
             _BMC + '; two-sided reference recognisers; callee body replacement (assume-guarantee)'),
@@ -775,8 +777,8 @@ _T = {
     'C08': ('No bound on the policy layer: allow_tld and rfc are unconstrained 32-bit values, the callback result ranges over every documented code, '
             'the eav_t starts from arbitrary bytes; Layer B shows what is (not) consulted with tld_check off and for literals.',
             _BMC + '; callbacks as uninterpreted functions'),
-    'C09': ('Equivalence of the real is_special_domain with the reserved-name reference for every VALID host name without root dot up to 13/16 bytes '
-            '(and a prefix family to 80 bytes in the thorough tier).',
+    'C09': ('Equivalence of the real is_special_domain with the reserved-name reference for every VALID host name without root dot up to 13/16 bytes, '
+            'plus families with leading labels of concrete length 63 (62, 7+63, 1+63, 63+63 in the thorough tier) before an arbitrary 12-byte suffix.',
             _BMC + '; differential harness against a reference recogniser'),
     'C10': ('Under the converter contract K1-K3 the solver shows: is_utf8_domain depends on its input only through the converter answer; on every '
             'all-ASCII address up to 9/12 bytes the four real email functions agree unless the converter failed, and then mode 6531 reports exactly '
@@ -786,11 +788,12 @@ _T = {
             'that lookups return exactly the listed class. Generator side (concrete translation validation, not a solver verdict): the repository\'s '
             'Perl generators are re-run on the shipped CSVs and their output compared with the shipped files.',
             'CBMC on the compiled table vs. a CSV-derived expectation; re-run of the real generators with a Text::CSV stand-in'),
-    'C12': ('Product programs: the four real scanners return the same code on every quote-free ASCII string up to 8/11 bytes; 5321-accept implies '
+    'C12': ('Product programs: the four real scanners return the same code on every quote-free ASCII string of length 0-24 / 0-48, 63-66; 5321-accept implies '
             '822-accept; the four real email functions on one address up to 9/12 bytes agree (6531 may only differ by an IDN error).',
             _BMC + '; product programs, no reference model needed'),
     'C13': ('Every program of 4/6 operations from the API alphabet with arbitrary settings: after each validation a fresh object with the confirmed '
-            'mode and the current settings agrees on return value, error code, message and result fields; nothing leaks after eav_free.',
+            'mode and the current settings agrees on return value, error code, message and result fields; nothing leaks after eav_free. '
+            'Plus one inductive step from an ARBITRARY eav_t satisfying a written representation invariant (and the base case eav_init): histories of any length.',
             _BMC + '; symbolic operation sequence, comparison with a fresh object; callbacks uninterpreted'),
     'C14': ('Sequential reduction, each step decided: no function-local writable static in any library unit (symbol scan); for 16 entry points a '
             'contract-enforced write set (goto-instrument --dfcc) on every input up to 4/7 bytes: any write to the caller\'s string, a file-scope '
@@ -798,12 +801,12 @@ _T = {
             'meta-argument; CBMC\'s own thread model was probed and found unsound for this code.',
             'CBMC dynamic frame condition checking of assigns-contracts on the real code + static-state symbol scan'),
     'C15': ('ret==1 iff errcode==0, errcode==-rc, message table, IDN message and invalid-RFC handling without bound (Layer C) and inside histories; '
-            'for every input up to 6/9 (local) and 10/13 (domain) bytes, whenever a validator returns code c the condition c names holds of the input.',
+            'for every input of length 0-10 / 0-18 (local) and 0-16, 64, 65 / 0-40, 64-66, 128, 254, 255 (domain), whenever a validator returns code c the condition c names holds of the input.',
             _BMC + '; per-code necessary conditions asserted on the real validators'),
     'C16': ('Flag and result-code consistency and, with -DEAV_EXTRA, byte-exact lpart/domain for every address up to 20/40 bytes in all four modes, '
             'for any leaf behaviour.', _BMC + '; leaf validators as recording uninterpreted functions'),
     'C17': ('All option variants of the two affected units linked into one product harness under renamed symbols: each option changes exactly what it '
-            'documents on every string up to 7/9 (local) and 10/12 (domain) bytes; lexical side checks show no other unit can change.',
+            'documents on every string of length 0-10 / 0-16 (local) and 0-16 / 0-32, 63-65 (domain); lexical side checks show no other unit can change.',
             _BMC + '; product program over build variants; lexical pre-checks'),
     'C18': ('The idn2, idn and idnkit source sets pass the same Layer B/C harnesses (same assertions, same converter stub) - hence identical decisions; '
             'idnkit contexts are heap objects so leak / double destroy / use after destroy are memory failures, over every history of 4/6 operations.',
